@@ -5,20 +5,79 @@ sys.path.insert(0, os.path.join(os.path.dirname(os.path.abspath(__file__)), '..'
 import e1check
 
 
+def probe(rng, cid, lock):
+    """Preemption-bounded probe for the stop-token wait: 1-2 waiters run a chosen number of steps
+    each, then request_stop runs to completion, then the PRNG takes over.  Sweeps the position of
+    the stop request relative to the waiter's stop_requested() checks, its registration and its
+    enqueue (windows a uniform schedule hits with probability ~2^-15)."""
+    nw = rng.weighted([(1, 3), (2, 2)])
+    sc = []
+    for w in range(nw):
+        sc += [str(w)] * (1 + rng.below(13))
+    sc += [str(nw)] * 24
+    lines = [f'case {cid} cv=any lock={lock} flag=0 seed={rng.below(1 << 30)} strat={rng.weighted([(0, 3), (2, 1)])} script=' + ','.join(sc)]
+    for w in range(nw):
+        lines.append(f'thread {w}: lock ; ' + rng.weighted([('swaitp', 4), ('stwaitp', 1)]) + ' ; unlock ;')
+    lines.append(f'thread {nw}: ' + rng.weighted([('stop ;', 3), ('lock ; set 1 ; unlock ; stop ;', 1), ('lock ; stop ; unlock ;', 1)]))
+    lines.append('endcase')
+    return '\n'.join(lines)
+
+
 def gen(rng, cid):
     k = rng.weighted([(2, 4), (3, 5), (4, 3), (5, 1), (6, 1)])
     cv = rng.weighted([('plain', 1), ('any', 1)])
     lock = rng.weighted([('user', 3), ('spin', 2)] + ([('userraw', 2)] if cv == 'any' else []))
     flag = rng.weighted([(0, 4), (1, 1)])
-    lines = [f'case {cid} cv={cv} lock={lock} flag={flag} seed={rng.below(1 << 30)} strat={rng.weighted([(0, 5), (1, 3), (2, 2)])}']
+    # stop-token waits (condition_variable_any only): about 40 % of the cv=any cases use
+    # wait(lock, stop_token, pred) / request_stop on one shared stop_source; a few of them run the
+    # logical threads as pika tasks (a runtime start per case is slow, so the share is small)
+    stopcase = cv == 'any' and rng.below(5) < 2
+    if stopcase and rng.below(8) == 0:
+        return probe(rng, cid, lock)
+    mode = 'pika' if stopcase and rng.below(12) == 0 else 'os'
+    hdr = f'case {cid} cv={cv} lock={lock} flag={flag} seed={rng.below(1 << 30)} strat={rng.weighted([(0, 5), (1, 3), (2, 2)])}'
+    if mode != 'os':
+        hdr += f' mode={mode}'
+    if stopcase and rng.below(3) == 0:
+        # a few long runs of single threads before the PRNG takes over: reaches the narrow windows
+        # (e.g. a complete request_stop between a waiter's stop_requested() check and its enqueue)
+        # that uniform choices hit with probability ~2^-15
+        sc = []
+        for _ in range(2 + rng.below(3)):
+            sc += [str(rng.below(k))] * (1 + rng.below(14))
+        hdr += ' script=' + ','.join(sc)
+    lines = [hdr]
+    stoppers = 0
     for t in range(k):
         ops = []
         for _ in range(1 + rng.below(3)):
-            b = rng.weighted([('waiter', 7), ('notifier', 6), ('bare', 2)])
-            if b == 'waiter':
+            b = rng.weighted([('waiter', 7), ('notifier', 6), ('bare', 2)] + ([('stopper', 4)] if stopcase else []))
+            if b == 'stopper' or (stopcase and t == k - 1 and stoppers == 0 and rng.below(4) != 0):
+                stoppers += 1
+                # filler so that the request tends to arrive when waiters are already parked / in flight
+                for _ in range(rng.weighted([(0, 2), (1, 2), (2, 2), (4, 1)])):
+                    ops.append('lock')
+                    ops.append('unlock')
+                style = rng.below(3)
+                if style == 0:
+                    ops.append('stop')
+                else:
+                    ops.append('lock')
+                    if style == 2:
+                        ops.append(f'set {rng.weighted([(1, 1), (0, 2)])}')
+                    if rng.below(2) == 0:
+                        ops.append('stop')
+                        ops.append('unlock')
+                    else:
+                        ops.append('unlock')
+                        ops.append('stop')
+            elif b == 'waiter':
                 ops.append('lock')
                 for _ in range(rng.weighted([(1, 6), (2, 1)])):
-                    ops.append(rng.weighted([('wait', 4), ('waitp', 3), ('twait', 3), ('twaitp', 3)]))
+                    if stopcase and rng.below(3) != 0:
+                        ops.append(rng.weighted([('swaitp', 3), ('stwaitp', 1)]))
+                    else:
+                        ops.append(rng.weighted([('wait', 4), ('waitp', 3), ('twait', 3), ('twaitp', 3)]))
                     if rng.below(4) == 0:
                         ops.append('set 0')
                 ops.append('unlock')
@@ -52,6 +111,13 @@ def stats(c, r):
             'notify_none': raw.count(' cv.none '), 'resume_dropped': raw.count(' ag.resume.dropped '),
             'timed_wait_signalled': raw.count(' cv.woke 5 0 1'), 'timed_wait_timed_out': raw.count(' cv.woke 5 1 1'),
             'untimed_spurious_wake': raw.count(' cv.woke 5 1 0'),
+            'stop_token_waits': raw.count(' inv.swaitp '), 'timed_stop_token_waits': raw.count(' inv.stwaitp '),
+            'timed_stop_wait_should_stop': raw.count(' cva.stop2 2 1 '), 'request_stop_calls': raw.count(' inv.stop '),
+            'stop_callbacks_dequeued': raw.count(' stop.deq '), 'stop_callbacks_inline': raw.count(' stop.infin '),
+            'stop_seen_at_S0': raw.count(' cva.stop0 2 1 '), 'stop_seen_at_S1': raw.count(' cva.stop1 2 1 '),
+            'stop_unlinked_by_waiter': sum(1 for l in raw.split('\n') if ' stop.unlink ' in l and l.split()[3] == '1'),
+            'stop_dtor_waited_for_requester': raw.count(' stop.waited '),
+            'pika_task_cases': 1 if ' mode=pika' in c.split('\n')[0] else 0,
             'pred_evals': raw.count(' pred '), 'lock_spins': raw.count(' ag.yield ') + raw.count(' ul.spin '),
             'deadlock_end': 1 if 'end deadlock' in raw else 0}
 
@@ -78,8 +144,8 @@ _unwrap_replay()
 e1check.run(dict(
     prop='C07', model='cv', harness='e1/cv.cpp', bin='e1_cv', gen=gen, nontrivial=nontrivial, stats=stats,
     quick=6000, thorough=150000, extra=12000,
-    rule='random programs (2-6 threads, 1-3 blocks each: waiter blocks lock;wait|wait(pred)|wait_for|wait_for(pred);unlock, notifier blocks with set/notify_one/notify_all inside or after the critical section, bare notifies) on one pika::condition_variable or condition_variable_any with a user-defined lock (via std::unique_lock or directly) or std::unique_lock<spinlock>, PRNG schedules (uniform / priority / sticky), virtual deadlines; non-trivial = at least one thread enqueued on the condition variable; distinct = distinct (program, schedule seed) text',
-    assumptions=['stop_token waits (condition_variable_any::wait(lock, stop_token, pred)) are not yet in the Lean model',
+    rule='random programs (2-6 threads, 1-3 blocks each: waiter blocks lock;wait|wait(pred)|wait_for|wait_for(pred)|wait(stop_token,pred)|wait_for(stop_token,d,pred);unlock, notifier blocks with set/notify_one/notify_all inside or after the critical section, bare notifies, request_stop inside/after/without a critical section) on one pika::condition_variable or condition_variable_any with a user-defined lock (via std::unique_lock or directly) or std::unique_lock<spinlock>, one shared stop_source in about 40 % of the condition_variable_any cases (a few of them on pika tasks instead of OS threads), PRNG schedules (uniform / priority / sticky; a third of the stop-token cases with a directed prefix of 2-4 long single-thread runs, and 1 in 8 of them a preemption-bounded probe: 1-2 stop-token waiters run a chosen number of steps, then request_stop runs to completion), virtual deadlines; non-trivial = at least one thread enqueued on the condition variable; distinct = distinct (program, schedule seed) text',
+    assumptions=['the stop state of the stop-token waits is modelled through the interface events of Model/CV.lean (its lock loops are the subject of C14; the stop.* lines of every log are also replayed through C14\'s acceptor); one shared stop_source',
                  'the user lock is modelled as an abstract mutual-exclusion lock; pika::mutex as the user lock (needs pika task identity) is not exercised by the harness',
                  'predicate state is changed only while holding the user lock (operation set)'],
 ))
